@@ -1,6 +1,7 @@
 package cli
 
 import (
+	"errors"
 	"github.com/jotaen/klog/klog"
 	"github.com/jotaen/klog/klog/app"
 	"github.com/jotaen/klog/klog/app/cli/util"
@@ -51,7 +52,11 @@ func (opt *Stop) Run(ctx app.Context) app.Error {
 
 		func(reconciler *reconciling.Reconciler) error {
 			if shouldTryYesterday && reconciler.Record.Date().IsEqualTo(yesterday) {
-				time, _ = time.Plus(klog.NewDuration(24, 0))
+				shiftedTime, tErr := time.Plus(klog.NewDuration(24, 0))
+				if tErr != nil {
+					return errors.New("The time cannot be expressed relative to the date of the record")
+				}
+				time = shiftedTime
 			}
 			return reconciler.CloseOpenRange(time, opt.TimeFormat(ctx.Config()), opt.Summary)
 		},
